@@ -86,6 +86,7 @@ type Behaviour struct {
 	Restarts   []bool          `json:"restarts,omitempty"` // C02: restart (marshal+read) before call k
 	Variant    string          `json:"variant,omitempty"`
 	Batch      bool            `json:"batch,omitempty"`
+	Refreshes  []bool          `json:"refreshes,omitempty"` // C02: k-th resume carries a refreshed environment and contact
 }
 
 // ---------------------------------------------------------------------------------------------
@@ -302,6 +303,27 @@ func matTrigger(b *Behaviour, flow int, ftype string) []byte {
 		panic("unknown trigger kind " + b.Trig)
 	}
 	return mustJSON(t)
+}
+
+// refreshed environment / contact carried by a resume (alternating so that consecutive refreshes differ)
+func refreshParts(n int) (M, M) {
+	envA := M{"date_format": "DD-MM-YYYY", "time_format": "h:mm aa", "timezone": "Africa/Kigali", "allowed_languages": []string{"fra", "eng"},
+		"number_format": M{"decimal_symbol": ",", "digit_grouping_symbol": "."}}
+	envB := M{"date_format": "MM-DD-YYYY", "time_format": "tt:mm:ss", "timezone": "America/Guayaquil", "allowed_languages": []string{"eng"}}
+	c := contactJSON()
+	if n%2 == 0 {
+		c["name"], c["language"] = "Robert", "fra"
+		return envA, c
+	}
+	c["name"], c["timezone"] = "Bobby", "Asia/Kolkata"
+	return envB, c
+}
+
+func matResumeRefresh(c Call, k int, n int) []byte {
+	var r M
+	json.Unmarshal(matResume(c, k), &r)
+	r["environment"], r["contact"] = refreshParts(n)
+	return mustJSON(r)
 }
 
 func matResume(c Call, k int) []byte {
